@@ -105,15 +105,19 @@ func targetsToRemove(graph *core.BuildGraph, filter, targets, targetsToKeep []co
 	if !includeTests {
 		// This is a bit complex - need to identify any tests that are tests "on" the set of things
 		// we've already decided to keep.
-		for _, target := range graph.AllTargets() {
-			if target.IsTest() {
-				for _, dep := range publicDependencies(graph, target) {
-					if keepTargets[dep] && !dep.TestOnly {
-						log.Debug("Keeping test %s on %s", target.Label, dep.Label)
-						addTarget(graph, keepTargets, target)
-					} else if dep.TestOnly {
-						log.Debug("Keeping test-only target %s", dep.Label)
-						addTarget(graph, keepTargets, dep)
+		// Keeping a test can keep more targets, which other tests may be tests "on", so repeat until nothing changes.
+		for n := -1; n != len(keepTargets); {
+			n = len(keepTargets)
+			for _, target := range graph.AllTargets() {
+				if target.IsTest() {
+					for _, dep := range publicDependencies(graph, target) {
+						if keepTargets[dep] && !dep.TestOnly {
+							log.Debug("Keeping test %s on %s", target.Label, dep.Label)
+							addTarget(graph, keepTargets, target)
+						} else if dep.TestOnly {
+							log.Debug("Keeping test-only target %s", dep.Label)
+							addTarget(graph, keepTargets, dep)
+						}
 					}
 				}
 			}
